@@ -1219,7 +1219,7 @@ mod fallback {
                 _ => return None,
             };
             let peer = PeerId::random();
-            let substream = Substream::new_verif(peer, SubstreamId::from(k), stream);
+            let substream = Substream::new_verif_yamux(peer, SubstreamId::from(k), stream);
             let permit = b.set.try_get_permit()?;
             let res = futures::executor::block_on(b.set.report_substream_open(
                 peer,
